@@ -13,6 +13,9 @@ From RX.Model Require Import Base CharClass Stream Tokenizer Doc Builder Parse A
 From RX.Spec Require Import Tree.
 From RX.Model Require Import Debug.
 From RX.Proofs Require Import ApiTotal PositionProofs DebugTotal StrictModel StrictApi Strict.
+From RX Require GeneratedDisplay.
+From RX.Model Require ErrDisplay.
+From RX.Proofs Require ErrDisplayProofs.
 Open Scope N_scope.
 
 (* ---- Proofs/ApiTotal.v ---- *)
@@ -78,3 +81,19 @@ Theorem C10_site_descendants_unreachable :
     (forall n, desc_nth_s n it = Ok (sit_nth n it) /\ DescInv d (snd (sit_nth n it))).
 Proof. exact site_descendants_unreachable. Qed.
 Print Assumptions C10_site_descendants_unreachable.
+
+(* ---- Proofs/ErrDisplayProofs.v ---- *)
+Module G5.
+Import RX.GeneratedDisplay. Import RX.Model.ErrDisplay. Import RX.Proofs.ErrShiftBase. Import RX.Proofs.ErrDisplayProofs. Local Open Scope list_scope.
+Theorem C10_display_table_complete :
+  forall e,
+  exists ps, dlookup (error_name e) display_table = Some ps /\ pieces_fit ps (error_fields e) = true.
+Proof. exact display_table_complete. Qed.
+Print Assumptions C10_display_table_complete.
+
+Theorem C10_display_nonempty :
+  forall e, error_display e <> [].
+Proof. exact display_nonempty. Qed.
+Print Assumptions C10_display_nonempty.
+
+End G5.
